@@ -181,6 +181,7 @@ fn expr_json(e: &syn::Expr) -> Value {
             "args":m.args.iter().map(expr_json).collect::<Vec<_>>(),"line":line_of(m)}),
         Call(c) => json!({"k":"call","func":expr_json(&c.func),"args":c.args.iter().map(expr_json).collect::<Vec<_>>(),"line":line_of(c)}),
         Binary(b) => json!({"k":"binary","op":toks(&b.op),"l":expr_json(&b.left),"r":expr_json(&b.right),"line":line_of(b)}),
+        Assign(a) => json!({"k":"assign","l":expr_json(&a.left),"r":expr_json(&a.right)}),
         Unary(u) => json!({"k":"unary","op":toks(&u.op),"e":expr_json(&u.expr)}),
         Reference(r) => json!({"k":"ref","mutable":r.mutability.is_some(),"e":expr_json(&r.expr)}),
         Paren(p) => json!({"k":"paren","e":expr_json(&p.expr)}),
